@@ -14,14 +14,30 @@ CONSTANTS Sizes,        \* abstract render sizes, e.g. {1, 2}
           MaxHeld,      \* the environment holds at most MaxHeld canvases
           NoCache,      \* leaves whose canvases are never stored (no_cache render / cacheable = False)
           IgnoreFocus,  \* widgets whose class sets ignore_focus (Text): the focus flag is dropped from the key
-          Variant,      \* "as_coded" or the name of a broken design
+          Layout,       \* widgets that keep LAYOUT STATE next to their content: a stored scroll offset that every sized call
+                        \* resolves for its own size (ListBox.offset_rows) and a layout remembered per size (Columns._cache_maxcol /
+                        \* _cache_column_widths, worked out from the focus position)
+          Frozen,       \* widgets that are never changed (bounds a run: the other widgets are changed up to MaxVer times)
+          Variant,      \* "as_coded", an accepted alternative design, or the name of a broken design
           MaxOps        \* > 0: behaviours of at most MaxOps actions with the history component `last` (export)
 
 (* A canvas object is identified by what it is: c = [key |-> <<widget, size, focus>>, seen |-> stamps it shows].   *)
 (* Versions only grow, so two live canvases of a cacheable widget never have the same key and the same stamps;     *)
 (* (equal canvases of a never-cached widget are indistinguishable and are merged).  The child canvases a canvas    *)
 (* is built from (Canvas.children / shards: strong references) are a function of the canvas, see KidsOf.           *)
+(* Layout state (widgets in Layout).  What a canvas of w made at size s shows of w itself is the pair                  *)
+(*   v = the version / focus position the layout was worked out from,  p = the offset actually displayed = Min(pos, s-1) *)
+(*   ("force at least one line of focus to be visible": a view of s rows cannot show an offset beyond s - 1).            *)
+(* A sized call is a QUESTION: as coded it resolves the stored offset in a local and leaves `pos` alone, and the        *)
+(* remembered layout is dropped by every _invalidate().  Broken designs: "query_moves_layout_state" writes the          *)
+(* clamped offset back without invalidating; "layout_cache_survives_invalidate" drops the remembered layout only when   *)
+(* the contents list changes, not on a focus change.  Accepted alternative (what Scrollable does):                      *)
+(* "clamp_stored_and_invalidated" writes the resolved offset back and calls _invalidate().                              *)
+(* (pos toggles between 0 and 1, so a canvas made before two scrolls equals a canvas made after them: the model merges   *)
+(* the two objects; this can only hide a cleanup difference, never produce a false alarm.)                              *)
 VARIABLES ver,     \* [Widgets -> 0..MaxVer]      leaf: content version; container: number of focus changes
+          pos,     \* [Widgets -> 0..1]           stored scroll offset (0 outside Layout)
+          lc,      \* [Widgets -> [size, v]]      layout remembered for one size (size 0: none)
           canv,    \* set of canvases             canvas objects that exist
           cached,  \* subset of canv              CanvasCache._widgets / _refs (at most one canvas per key)
           deps,    \* [Widgets -> SUBSET Widgets] CanvasCache._deps (absent = {})
@@ -29,21 +45,25 @@ VARIABLES ver,     \* [Widgets -> 0..MaxVer]      leaf: content version; contain
           stale,   \* the last action fetched a canvas that a fresh rendering would not reproduce
           nops,
           last     \* history component for behaviour export
-vars == <<ver, canv, cached, deps, held, stale, nops, last>>
+vars == <<ver, pos, lc, canv, cached, deps, held, stale, nops, last>>
 
-Stamp == ver
-FocusPos(v) == (v % 2) + 1                                 \* focus position of a container with stamp v
+Min(a, b) == IF a < b THEN a ELSE b
+NoLc == [size |-> 0, v |-> 0]
+\* what a fresh rendering at size s shows of every widget, given the stored offsets p
+StampOf(p, s) == [x \in Widgets |-> [v |-> ver[x], p |-> IF x \in Layout THEN Min(p[x], s - 1) ELSE 0]]
+Stamp(s) == StampOf(pos, s)
+FocusPos(v) == (v % 2) + 1                                 \* focus position of a container after v focus changes
 Key(w, s, f) == <<w, s, f /\ w \notin IgnoreFocus>>
 WidgetOf(c) == c.key[1]
 HasEntry(ch, w) == \E c \in ch : WidgetOf(c) = w          \* "w in CanvasCache._widgets"
 Entry(ch, k) == CHOOSE c \in ch : c.key = k
 KidsOf(c) ==
   LET w == WidgetOf(c) IN
-  {[key |-> Key(Kids(w)[i], c.key[2], c.key[3] /\ FocusPos(c.seen[w]) = i),
+  {[key |-> Key(Kids(w)[i], c.key[2], c.key[3] /\ FocusPos(c.seen[w].v) = i),
     seen |-> [x \in Below(Kids(w)[i]) |-> c.seen[x]]] : i \in 1..Len(Kids(w))}
 
 (* the pieces of state the cache algorithms thread through *)
-St == [canv |-> canv, cached |-> cached, deps |-> deps, stale |-> FALSE, hits |-> 0, made |-> 0]
+St == [canv |-> canv, cached |-> cached, deps |-> deps, pos |-> pos, lc |-> lc, stale |-> FALSE, hits |-> 0, made |-> 0]
 
 (* ---- CanvasCache.store as coded ------------------------------------------------------------ *)
 Store(st, c) ==
@@ -57,26 +77,6 @@ Store(st, c) ==
                                ELSE [d \in Widgets |-> IF d \in registered THEN @[d] \cup {w} ELSE @[d]],
                      !.cached = @ \cup {c}]
 
-(* ---- cache_widget_render as coded: fetch, else render the children, finalize, store ----------- *)
-RECURSIVE Rend(_, _, _, _), RendKids(_, _, _, _, _)
-Rend(st, w, s, f) ==
-  LET k == Key(w, s, f) IN
-  IF \E c \in st.cached : c.key = k
-  THEN LET c == Entry(st.cached, k) IN
-       [st |-> [st EXCEPT !.stale = @ \/ ~NotStale([w |-> w, seen |-> c.seen], Stamp), !.hits = @ + 1], c |-> c]
-  ELSE LET rk == RendKids(st, w, s, k[3], 1)
-           \* the new canvas shows its own state and whatever the child canvases show
-           seen == [x \in Below(w) |->
-                      IF x = w THEN Stamp[w]
-                      ELSE LET j == CHOOSE j \in rk.cs : x \in Below(WidgetOf(j)) IN j.seen[x]]
-           c == [key |-> k, seen |-> seen]
-       IN [st |-> Store([rk.st EXCEPT !.canv = @ \cup {c}, !.made = @ + 1], c), c |-> c]
-RendKids(st, w, s, f, i) ==
-  IF i > Len(Kids(w)) THEN [st |-> st, cs |-> {}]
-  ELSE LET r == Rend(st, Kids(w)[i], s, f /\ FocusPos(Stamp[w]) = i)      \* only the focus child is rendered with focus
-           rest == RendKids(r.st, w, s, f, i + 1)
-       IN [st |-> rest.st, cs |-> {r.c} \cup rest.cs]
-
 (* ---- CanvasCache.invalidate as coded ---------------------------------------------------------- *)
 RECURSIVE Inval(_, _), InvalAll(_, _)
 Inval(st, w) ==
@@ -86,6 +86,36 @@ Inval(st, w) ==
   IN IF Variant = "no_cascade" THEN st2 ELSE InvalAll(st2, D)
 InvalAll(st, D) ==
   IF D = {} THEN st ELSE LET d == CHOOSE x \in D : TRUE IN InvalAll(Inval(st, d), D \ {d})
+
+(* ---- cache_widget_render as coded: fetch, else render the children, finalize, store ----------- *)
+(* A widget with layout state first resolves it for this size (ListBox.calculate_visible, Columns.column_widths).       *)
+RECURSIVE Rend(_, _, _, _), RendKids(_, _, _, _, _)
+Rend(st, w, s, f) ==
+  LET k == Key(w, s, f) IN
+  IF \E c \in st.cached : c.key = k
+  THEN LET c == Entry(st.cached, k) IN
+       [st |-> [st EXCEPT !.stale = @ \/ ~NotStale([w |-> w, seen |-> c.seen], StampOf(st.pos, s)), !.hits = @ + 1], c |-> c]
+  ELSE LET lay == w \in Layout
+           shownV == IF lay /\ st.lc[w].size = s THEN st.lc[w].v ELSE ver[w]    \* "if maxcol == self._cache_maxcol: return the remembered widths"
+           shownP == IF lay THEN Min(st.pos[w], s - 1) ELSE 0                   \* the clamp
+           moved == lay /\ shownP # st.pos[w]
+           st0 == IF moved /\ Variant = "query_moves_layout_state" THEN [st EXCEPT !.pos[w] = shownP]
+                  ELSE IF moved /\ Variant = "clamp_stored_and_invalidated"
+                       THEN [Inval([st EXCEPT !.pos[w] = shownP], w) EXCEPT !.lc[w] = NoLc]        \* _invalidate()
+                  ELSE st
+           st1 == IF lay THEN [st0 EXCEPT !.lc[w] = [size |-> s, v |-> IF @.size = s THEN @.v ELSE ver[w]]] ELSE st0
+           rk == RendKids(st1, w, s, k[3], 1)
+           \* the new canvas shows its own state and whatever the child canvases show
+           seen == [x \in Below(w) |->
+                      IF x = w THEN [v |-> shownV, p |-> shownP]
+                      ELSE LET j == CHOOSE j \in rk.cs : x \in Below(WidgetOf(j)) IN j.seen[x]]
+           c == [key |-> k, seen |-> seen]
+       IN [st |-> Store([rk.st EXCEPT !.canv = @ \cup {c}, !.made = @ + 1], c), c |-> c]
+RendKids(st, w, s, f, i) ==
+  IF i > Len(Kids(w)) THEN [st |-> st, cs |-> {}]
+  ELSE LET r == Rend(st, Kids(w)[i], s, f /\ FocusPos(ver[w]) = i)      \* only the focus child is rendered with focus
+           rest == RendKids(r.st, w, s, f, i + 1)
+       IN [st |-> rest.st, cs |-> {r.c} \cup rest.cs]
 
 (* ---- CanvasCache.cleanup as coded: the weak reference callback of a dying canvas --------------- *)
 Cleanup(st, c) ==
@@ -108,11 +138,12 @@ Collect(st, h) ==
       st1 == CleanupAll(st, dead)
   IN [st1 EXCEPT !.canv = live]
 
-Install(st, h) == canv' = st.canv /\ cached' = st.cached /\ deps' = st.deps /\ held' = h
+Install(st, h) == canv' = st.canv /\ cached' = st.cached /\ deps' = st.deps /\ pos' = st.pos /\ lc' = st.lc /\ held' = h
 
 (* ---- actions ---------------------------------------------------------------------------------- *)
 NoOp == [n |-> "init", w |-> "-", s |-> 0, f |-> FALSE, keep |-> FALSE, hit |-> FALSE, hits |-> 0, made |-> 0]
 Init == /\ ver = [x \in Widgets |-> 0]
+        /\ pos = [x \in Widgets |-> 0] /\ lc = [x \in Widgets |-> NoLc]
         /\ canv = {} /\ cached = {} /\ deps = [w \in Widgets |-> {}]
         /\ held = {} /\ stale = FALSE /\ nops = 0 /\ last = NoOp
 
@@ -135,11 +166,23 @@ Render(w, s, f, keep) ==
 \* focus callback): changes the widget, then calls _invalidate()
 Mutate(x) ==
   /\ Count
-  /\ ver[x] < MaxVer
+  /\ ver[x] < MaxVer /\ x \notin Frozen
   /\ ver' = [ver EXCEPT ![x] = @ + 1]
-  /\ Install(IF Variant = "mutator_forgets_invalidate" THEN St ELSE Inval(St, x), held)
+  /\ LET st1 == IF Variant = "mutator_forgets_invalidate" THEN St ELSE Inval(St, x)
+         \* Columns._invalidate() also forgets the remembered layout
+     IN Install(IF Variant = "layout_cache_survives_invalidate" THEN st1 ELSE [st1 EXCEPT !.lc[x] = NoLc], held)
   /\ stale' = FALSE
   /\ Log([NoOp EXCEPT !.n = "mutate", !.w = x, !.s = ver'[x]])
+
+\* a public mutator that moves the stored scroll offset of x (set_focus_valign, set_focus with an offset, a key):
+\* changes the state, then calls _invalidate()
+Scroll(x) ==
+  /\ Count
+  /\ x \in Layout
+  /\ Install([Inval([St EXCEPT !.pos[x] = 1 - @], x) EXCEPT !.lc[x] = NoLc], held)
+  /\ stale' = FALSE
+  /\ Log([NoOp EXCEPT !.n = "scroll", !.w = x, !.s = 1 - pos[x]])
+  /\ UNCHANGED ver
 
 \* the environment releases a canvas it held
 Drop(c) ==
@@ -152,6 +195,7 @@ Drop(c) ==
 
 Next == \/ \E w \in Widgets, s \in Sizes, f \in BOOLEAN, keep \in BOOLEAN : Render(w, s, f, keep)
         \/ \E x \in Widgets : Mutate(x)
+        \/ \E x \in Layout : Scroll(x)
         \/ \E c \in held : Drop(c)
 Spec == Init /\ [][Next]_vars
 
@@ -172,9 +216,16 @@ SimSpec == Init /\ [][SimNext]_vars
 \* every fetch returned a canvas recording the current stamps of all widgets at or below it
 NoStaleFetch == ~stale
 \* stronger, as a state invariant: no cache entry could ever answer with an outdated canvas
-NoStale == \A c \in cached : NotStale([w |-> WidgetOf(c), seen |-> c.seen], Stamp)
+NoStale == \A c \in cached : NotStale([w |-> WidgetOf(c), seen |-> c.seen], Stamp(c.key[2]))
 \* sentence 2 of the property: a changed widget is visible through every ancestor's cached canvases
-ChangeVisibleInv == \A x \in Widgets : ChangeVisible({[w |-> WidgetOf(c), seen |-> c.seen] : c \in cached}, x, Stamp)
+ChangeVisibleInv == \A x \in Widgets, s \in Sizes :
+                      ChangeVisible({[w |-> WidgetOf(c), seen |-> c.seen] : c \in {d \in cached : d.key[2] = s}}, x, Stamp(s))
+\* a sized call is a question: as coded no render / rows / cursor query moves the stored offset, and a remembered layout
+\* is always the layout of the present focus position
+LayoutSane ==
+  \A x \in Widgets :
+     /\ (x \notin Layout) => (pos[x] = 0 /\ lc[x] = NoLc)
+     /\ (lc[x].size # 0) => (lc[x].v = ver[x])
 \* weak references never dangle, one canvas per key
 CacheSane == /\ cached \subseteq canv
              /\ \A c, d \in cached : c.key = d.key => c = d
